@@ -35,11 +35,15 @@ class ACModel:
         self.prop_queries = []
         self.breeze_exclusive = True
         self.state_overrides = None      # raw byte overrides for the C0 body
+        self.raw_state_body = None       # if set, reported verbatim as the 0xC0 body
         self.msg_counter = 0
 
     # -- rendering --
     def state_frame(self, frame_type: int = acframe.FT_QUERY) -> bytes:
-        body = acstate.encode_0xC0(self.state, self.report_length, self.state_overrides)
+        if self.raw_state_body is not None:
+            body = bytes(self.raw_state_body)
+        else:
+            body = acstate.encode_0xC0(self.state, self.report_length, self.state_overrides)
         return acframe.build(body, frame_type, check=self.report_check)
 
     def caps_frame(self, page: int) -> bytes:
@@ -115,7 +119,7 @@ class ACModel:
         return [self.state_frame(acframe.FT_CONTROL)]
 
     def _query(self, body, cmd):
-        if len(body) < 21:
+        if len(body) < 8:
             raise RefError("0x41 body too short")
         if body[1] == 0x81:
             self.commands.append(("get_state", None, cmd))
